@@ -210,14 +210,16 @@ func (r *Reader) GetObject(objNum int) (core.Object, error) {
 
 // getUncompressedObject reads an object directly from the file
 func (r *Reader) getUncompressedObject(objNum int, entry *core.XRefEntry) (core.Object, error) {
-	// Seek to object position
-	_, err := r.file.Seek(entry.Offset, io.SeekStart)
-	if err != nil {
-		return nil, fmt.Errorf("failed to seek to object %d: %w", objNum, err)
+	if entry.Offset < 0 || entry.Offset > r.fileSize {
+		return nil, fmt.Errorf("failed to seek to object %d: offset %d outside the file", objNum, entry.Offset)
 	}
 
-	// Parse the indirect object
-	parser := core.NewParser(r.file)
+	// Parse the indirect object from an independent view of the file. Resolving an
+	// indirect /Length while this object is being parsed loads another object; with
+	// a shared file position that moved the position under this parser's buffer, and
+	// any stream too long for the buffer (4 KB) was then read from the wrong place.
+	section := io.NewSectionReader(r.file, entry.Offset, r.fileSize-entry.Offset)
+	parser := core.NewParser(section)
 	parser.SetReferenceResolver(r)
 	indObj, err := parser.ParseIndirectObject()
 	if err != nil {
